@@ -25,7 +25,7 @@ import (
 
 func TestMain(m *testing.M) {
 	harness.Property("C15",
-		"families: relay (library dialler <-> byte-level TCP relay <-> library listener on loopback; the relay re-segments both directions by generated chunk schedules with split points inside prompts, replies and payload, and holds back the last 1..n bytes of the password line until the first Hold payload bytes of the dialler have arrived, then forwards them with one Write); eager (library dialler <-> scripted login server that sends the first Eager bytes of its payload with the same Write as 'Password :\\r', optionally with the prompt itself split); adversary (library dialler <-> scripted server that is silent, sends a partial prompt, garbage without CR once or endlessly, endless non-prompt lines, closes or half-closes at once, or stops after the callsign prompt), dialled with a deadline of 50..400 ms through DialContext, DialTimeout, Dialer.Timeout or the dial_timeout= URL parameter. Callsign [!-~]{1,16}; password any bytes without CR (0..24); payloads 0..8 KiB each way (random, text, CR/LF-heavy, prompt look-alikes). Non-trivial: relay cases with Hold > 0, eager cases with Eager > 0, all adversary cases; distinct by hash of the whole case.",
+		"families: relay (library dialler <-> byte-level TCP relay <-> library listener on loopback; the relay re-segments both directions by generated chunk schedules with split points inside prompts, replies and payload, and holds back the last 1..n bytes of the password line until the first Hold payload bytes of the dialler have arrived, then forwards them with one Write); eager (library dialler <-> scripted login server that sends the first Eager bytes of its payload with the same Write as 'Password :\\r', optionally with the prompt itself split); adversary (library dialler <-> scripted server that is silent, sends a partial prompt, garbage without CR once or endlessly, endless non-prompt lines, closes or half-closes at once, or stops after the callsign prompt), dialled with a deadline of 50..400 ms through DialContext, DialTimeout, Dialer.Timeout or the dial_timeout= URL parameter. Callsign [!-~]{1,16}; password any bytes without CR (0..24); in 1/6 (password) and 1/12 (callsign) of the cases the credential is repeated to a length from {255..70000} around the usual buffer sizes (4095/4096/4097, 8192, 65536); two adversary servers prompt and then never read while the credential is 12..24 MiB, so that the dialler is blocked in a write when the deadline passes; payloads 0..8 KiB each way (random, text, CR/LF-heavy, prompt look-alikes). Non-trivial: relay cases with Hold > 0, eager cases with Eager > 0, all adversary cases; distinct by hash of the whole case.",
 		"callsigns contain no white space at all (the login protocol trims the callsign line, and the statement's callsigns are station identifiers); passwords may contain any byte except CR, including LF, NUL and 0x80..0xFF, because the password line is delimited by CR only",
 		"TCP segmentation cannot be forced: bytes meant to travel together are sent with one Write on a TCP_NODELAY socket, bytes meant to be separate are separated by a pause of 0..2 ms. A different segmentation chosen by the kernel weakens that case but cannot cause an alarm, since the property must hold for every segmentation",
 		"end of stream is signalled to the library endpoints by the relay / scripted server shutting down its write side after the last expected byte, so 'complete' is decided by EOF, never by a clock",
@@ -58,6 +58,28 @@ type Case struct {
 
 	Server  string `json:"server"`  // adversary behaviour
 	Garbage []byte `json:"garbage"` // what that behaviour sends
+
+	// Long credentials are kept compact: when CallLen / PwLen exceeds the length of Call / Password, the
+	// effective credential is Call / Password repeated cyclically up to that many bytes (see expand).
+	CallLen int `json:"call_len,omitempty"`
+	PwLen   int `json:"pw_len,omitempty"`
+}
+
+func cyc(unit []byte, n int) []byte {
+	if n <= len(unit) || len(unit) == 0 {
+		return unit
+	}
+	out := make([]byte, n)
+	for i := 0; i < n; i += copy(out[i:], unit) {
+	}
+	return out
+}
+
+// expand returns the case with its effective credentials written out.
+func (c Case) expand() Case {
+	c.Call = string(cyc([]byte(c.Call), c.CallLen))
+	c.Password = cyc(c.Password, c.PwLen)
+	return c
 }
 
 type outcome struct {
@@ -343,7 +365,8 @@ func runAdversary(c Case, o *outcome) (sig, msg string) {
 	return "", ""
 }
 
-func run(c Case) (sig, msg string, o outcome) {
+func run(c0 Case) (sig, msg string, o outcome) {
+	c := c0.expand()
 	var psig, pmsg string
 	hung, kind := harness.Watch(watchLimit, func() {
 		psig, pmsg = harness.Catch(func() {
@@ -358,7 +381,7 @@ func run(c Case) (sig, msg string, o outcome) {
 		})
 	})
 	if hung {
-		harness.Record("hang:"+c.Family+"-login", c, fmt.Sprintf("the %s case did not finish within %v (%s): a login or a post-login transfer is stuck", c.Family, watchLimit, kind))
+		harness.Record("hang:"+c.Family+"-login", c0, fmt.Sprintf("the %s case did not finish within %v (%s): a login or a post-login transfer is stuck", c.Family, watchLimit, kind))
 		harness.ExitHung()
 	}
 	if psig != "" {
@@ -436,6 +459,15 @@ func genCredentials(t *rapid.T, c *Case) {
 	default:
 		c.Password = rapid.SliceOfN(rapid.Byte().Filter(func(b byte) bool { return b != '\r' }), 1, 24).Draw(t, "pw")
 	}
+	// length classes around the usual I/O buffer sizes (a login line longer than a reader's buffer) - the
+	// statement quantifies over all callsign/password strings without CR
+	long := []int{255, 256, 1023, 1024, 4094, 4095, 4096, 4097, 4098, 5000, 8191, 8192, 8193, 20000, 65535, 65536, 70000}
+	if len(c.Password) > 0 && rapid.IntRange(0, 5).Draw(t, "pw_long") == 0 {
+		c.PwLen = rapid.SampledFrom(long).Draw(t, "pw_len")
+	}
+	if rapid.IntRange(0, 11).Draw(t, "call_long") == 0 {
+		c.CallLen = rapid.SampledFrom(long).Draw(t, "call_len")
+	}
 }
 
 func genLoginDial(t *rapid.T, c *Case) {
@@ -449,7 +481,7 @@ func genLoginDial(t *rapid.T, c *Case) {
 var (
 	lineStart = []byte("abdefghijklmnoqrstuvwxyzABDEFGHIJKLMNOQRSTUVWXYZ0123456789*#<[;.-")
 	lineRest  = []byte("abcdefghijklmnopqrstuvwxyzCPS 0123456789:*#<>[];.-")
-	servers   = []string{"silent", "partial-prompt", "callsign-then-silence", "callsign-then-partial-password", "garbage-no-cr", "garbage-stream-no-cr", "endless-lines", "immediate-close", "half-close", "garbage-then-close"}
+	servers   = []string{"prompt-then-never-reads", "callsign-then-never-reads-password", "silent", "partial-prompt", "callsign-then-silence", "callsign-then-partial-password", "garbage-no-cr", "garbage-stream-no-cr", "endless-lines", "immediate-close", "half-close", "garbage-then-close"}
 )
 
 func genCase(t *rapid.T) Case {
@@ -468,6 +500,19 @@ func genCase(t *rapid.T) Case {
 		c.TimeoutMs = rapid.IntRange(50, 400).Draw(t, "timeout_ms")
 		c.Server = rapid.SampledFrom(servers).Draw(t, "server")
 		switch c.Server {
+		case "prompt-then-never-reads", "callsign-then-never-reads-password":
+			// the dialler must be blocked in a WRITE when the deadline passes: the reply has to exceed what
+			// the kernel buffers between the two sockets (the server's receive buffer is set to 4 KiB; the
+			// sender's buffer auto-tunes up to tcp_wmem max, 4 MiB here)
+			n := rapid.SampledFrom([]int{12 << 20, 16 << 20, 24 << 20}).Draw(t, "huge")
+			if c.Server == "prompt-then-never-reads" {
+				c.CallLen = n
+			} else {
+				if len(c.Password) == 0 {
+					c.Password = []byte("x")
+				}
+				c.PwLen, c.CallLen = n, 0
+			}
 		case "partial-prompt":
 			c.Garbage = []byte("Callsign :")[:rapid.IntRange(1, 10).Draw(t, "prefix")]
 		case "callsign-then-partial-password":
@@ -568,6 +613,12 @@ func account(c Case, o outcome) {
 	}
 	if bytes.IndexByte(c.Password, '\n') >= 0 {
 		harness.Label("password:has-LF")
+	}
+	if c.PwLen >= 4096 {
+		harness.Label("password:>=4096-bytes")
+	}
+	if c.CallLen >= 4096 {
+		harness.Label("callsign:>=4096-bytes")
 	}
 	if len(c.Password) == 0 {
 		harness.Label("password:empty")
